@@ -717,7 +717,14 @@ def run(ctx):
             complete = all(i in tokens for i in range(nquery))
             # several kind / data / implementation / route draws per arrangement
             for _ in range(ctx.pick(5, 60) if complete else ctx.pick(1, 6)):
-                check_reader(ctx, lib, build_case(rng, nquery, tokens))
+                case = build_case(rng, nquery, tokens)
+                check_reader(ctx, lib, case)
+                if complete and len(case['entry']) > 1 and rng.random() < 0.5:
+                    # the very same fields (names, kinds, values) in another column order through the same long-lived reader
+                    order = rng.sample(range(len(case['entry'])), len(case['entry']))
+                    again = dict(case, entry=[case['entry'][i] for i in order], rows=[[row[i] for i in order] for row in case['rows']])
+                    ctx.count('same_fields_reordered')
+                    check_reader(ctx, lib, again)
     ctx.note_max('arrangements_enumerated', index)
     for _ in range(ctx.pick(40, 200)):
         check_dupes(ctx, lib, rng, rng.randint(1, 5))
